@@ -156,6 +156,14 @@ def _parse_composition_keywords(
     )
 
 
+def _single_primitive_type(type_field: Any) -> str | None:
+    """The primitive named by a 'type' keyword: "integer", or ["integer", "null"] (OpenAPI 3.1); otherwise None."""
+    if isinstance(type_field, list):
+        non_null = [t for t in type_field if t != "null"]
+        type_field = non_null[0] if len(non_null) == 1 else None
+    return type_field if type_field in ("string", "integer", "number", "boolean") else None
+
+
 def _nullable_non_object_ref(node: Any, context: ParsingContext) -> Mapping[str, Any] | None:
     """Rewrite the OpenAPI 3.0 spelling of a nullable reference to a non-object schema.
 
@@ -830,8 +838,9 @@ def _parse_schema(
             # Avoid generating synthetic names for $ref items - let the ref resolve naturally
             if "$ref" in raw_items_node:
                 item_schema_context_name_for_reparse = None
-            elif raw_items_node.get("type") in ["string", "integer", "number", "boolean"]:
+            elif _single_primitive_type(raw_items_node.get("type")) is not None:
                 # Primitive items should NOT get names - they should remain inline as List[str] etc.
+                # (also in the OpenAPI 3.1 spelling of a nullable primitive: "type": ["integer", "null"])
                 item_schema_context_name_for_reparse = None
             elif (
                 not raw_items_node.get("type")
